@@ -39,7 +39,8 @@ Definition recreate_style (content : list (str * str)) (style_ids : list str) : 
    | Some c => if existsb (str_eqb c) style_ids then [(lit "style", c)] else []
    | None => [] end)
   ++ (match lookup (lit "text-align") content with Some v => [(lit "tts:textAlign", v)] | None => [] end)
-  ++ (match lookup (lit "italics") content with Some _ => [(lit "tts:fontStyle", lit "italic")] | None => [] end)
+  (* `if content.get('italics')`: a value is carried as a string, the empty string standing for False / None *)
+  ++ (match lookup (lit "italics") content with Some (_ :: _) => [(lit "tts:fontStyle", lit "italic")] | _ => [] end)
   ++ (match lookup (lit "font-family") content with Some v => [(lit "tts:fontFamily", v)] | None => [] end)
   ++ (match lookup (lit "font-size") content with Some v => [(lit "tts:fontSize", v)] | None => [] end)
   ++ (match lookup (lit "color") content with Some v => [(lit "tts:color", v)] | None => [] end)
@@ -55,23 +56,33 @@ Inductive pnode :=
 Definition span_attrs (attrs : list (str * str)) : str :=
   flat_map (fun kv => [32] ++ fst kv ++ [61] ++ quoteattr (snd kv)) attrs.
 
-Definition close_span : str := lit "</span> ".
+Definition close_span : str := lit "</span>".
 Definition br_text : str := lit "<br/>" ++ [10; 32; 32; 32; 32].
 
-(* one node of _recreate_text; legacy = LegacyDFXPWriter (a space after every text node) *)
+(* one node of _recreate_text; legacy = LegacyDFXPWriter.  Since `fix: DFXP writer put a blank after every </span>`
+   and `fix: legacy DFXP writer put a blank after every text node and every </span>` both writers assemble the same
+   string: a text node is appended as it is, `</span>` follows the line without rstrip and without a blank *)
 Definition payload_step (legacy : bool) (st : str * bool) (n : pnode) : str * bool :=
   let '(line, open) := st in
   match n with
-  | PText s => (line ++ xml_escape s ++ (if legacy then [32] else []), open)
+  | PText s => (line ++ xml_escape s, open)
   | PBreak => (rstrip line ++ br_text, open)
   | PStyleStart attrs =>
       match span_attrs attrs with
       | [] => (line, open)
-      | styles => ((if open then rstrip line ++ close_span else line) ++ lit "<span" ++ styles ++ [62], true)
+      | styles => ((if open then line ++ close_span else line) ++ lit "<span" ++ styles ++ [62], true)
       end
-  | PStyleEnd => if open then (rstrip line ++ close_span, false) else (line, open)
+  | PStyleEnd => if open then (line ++ close_span, false) else (line, open)
   end.
 
 (* returns the payload and the open_span flag left behind for the next caption *)
 Definition recreate_text (legacy : bool) (open : bool) (nodes : list pnode) : str * bool :=
   let '(line, open') := fold_left (payload_step legacy) nodes ([], open) in (rstrip line, open').
+
+(* LegacyDFXPWriter._recreate_style: as above, preceded by region= when the dictionary has a `region` key naming a
+   <region> that exists in the document so far *)
+Definition legacy_recreate_style (content : list (str * str)) (style_ids region_ids : list str) : list (str * str) :=
+  (match lookup (lit "region") content with
+   | Some r => if existsb (str_eqb r) region_ids then [(lit "region", r)] else []
+   | None => [] end)
+  ++ recreate_style content style_ids.
